@@ -240,7 +240,10 @@ func (target *TargetGeopackage) writeFeatures(features []processing.Feature) {
 			log.Fatalf("Could not create a binary geometry: %s", err)
 		}
 
-		data := f.Columns()
+		// copy: the column slice is shared by the writers of all tile matrices, appending in place is a data race
+		columns := f.Columns()
+		data := make([]interface{}, 0, len(columns)+1)
+		data = append(data, columns...)
 		data = append(data, sb)
 
 		_, err = stmt.Exec(data...)
